@@ -83,9 +83,62 @@ func c19SetSTH(w *Witness, tx any, logID string, sth []byte) error {
 	}
 	t, isTx := tx.(*sql.Tx)
 	c19WriteInTx = isTx && t != nil && t == c19Tx
+	if c19WriteFails {
+		c19WriteFailed = true
+		return errors.New("database or disk is full")
+	}
 	c19Writes = append(c19Writes, sth)
 	c19Row = sth
 	return nil
+}
+
+var c19WriteFails, c19WriteFailed bool
+
+// The two database calls of setSTH itself are cut for Harness_C19_setSTH.
+var (
+	c19ExecErr, c19CommitErr   error
+	c19ExecCalls, c19CommitCalls int
+)
+
+//verif:stub (*database/sql.Tx).Exec files=witness.go method=Exec
+func c19Exec(tx any, query string, args ...any) (sql.Result, error) { // (any: the native redirection is by method name and also meets (*sql.DB).Exec)
+	c19ExecCalls++
+	return nil, c19ExecErr
+}
+
+//verif:stub (*database/sql.Tx).Commit files=witness.go method=Commit
+func c19Commit(tx *sql.Tx) error {
+	c19CommitCalls++
+	return c19CommitErr
+}
+
+// Harness_C19_setSTH: the write of a new STH reports failure exactly when the INSERT or the
+// COMMIT failed (an update whose transaction did not commit must not be answered as stored).
+//
+//verif:opt maxpaths=200 reach=stored,failed
+func Harness_C19_setSTH() {
+	w := &Witness{db: &sql.DB{}}
+	c19ExecErr, c19CommitErr, c19ExecCalls, c19CommitCalls = nil, nil, 0, 0
+	if vChoice("insert-fails", 2) == 1 {
+		c19ExecErr = errors.New("database is locked")
+	}
+	if vChoice("commit-fails", 2) == 1 {
+		c19CommitErr = errors.New("context canceled")
+	}
+	err := w.setSTH(&sql.Tx{}, c19LogID, []byte("{}"))
+	vAssert(c19ExecCalls == 1, "one INSERT")
+	if c19ExecErr != nil {
+		vAssert(err != nil && c19CommitCalls == 0, "a failed INSERT is an error and nothing is committed")
+		vReach("failed")
+		return
+	}
+	vAssert(c19CommitCalls == 1, "committed once")
+	vAssert((err != nil) == (c19CommitErr != nil), "the write fails exactly when the commit fails")
+	if err != nil {
+		vReach("failed")
+	} else {
+		vReach("stored")
+	}
 }
 
 //verif:stub (*database/sql.DB).BeginTx files=witness.go method=BeginTx
@@ -201,6 +254,7 @@ func Harness_C19_update() {
 	c19Tx, c19ReadInTx, c19WriteInTx = nil, false, false
 	c19Conc = false
 	c19DBFails = vChoice("db-fails", 2) == 1
+	c19WriteFails, c19WriteFailed = vChoice("write-fails", 2) == 1, false
 	unknownKind := vChoice("unknown-log", 3) // configured id | an id nobody configured | a non-canonical base64 spelling of the configured id
 	unknownLog := unknownKind != 0
 	nextIDKind := vChoice("next-logid", 4)
@@ -261,6 +315,9 @@ func Harness_C19_update() {
 		vAssert(vJSONDecode(out, &cos) == nil && cos.TreeSize == next.TreeSize && cos.SHA256RootHash == next.SHA256RootHash && len(cos.WitnessSigs) == 1, "answer carries that STH and the cosignature")
 		return
 	}
+	if c19WriteFailed {
+		vAssert(err != nil && c19Signs == 0, "an update whose write failed is an error and nothing is cosigned")
+	}
 	// a refusal signalled as FailedPrecondition (what the HTTP layer and the witness client treat as
 	// 'stale or inconsistent') carries the currently held STH
 	if hasPrev && status.Code(err) == codes.FailedPrecondition {
@@ -272,7 +329,7 @@ func Harness_C19_update() {
 	} else {
 		vAssert(c19Row == nil, "a refused update stores nothing")
 	}
-	if hasPrev && err != nil && c19SigCalls == 2 && c19SigOK[0] && c19SigOK[1] && !c19DBFails {
+	if hasPrev && err != nil && c19SigCalls == 2 && c19SigOK[0] && c19SigOK[1] && !c19DBFails && !c19WriteFailed {
 		// refused as stale or inconsistent: answered with the held STH
 		vAssert(bytes.Equal(out, prevRaw), "stale or inconsistent candidate is answered with the currently held STH")
 		if next.TreeSize < prev.TreeSize {
@@ -304,6 +361,7 @@ func Harness_C19_answersKept() {
 	c19Writes, c19SigCalls, c19SigSeen, c19SigKeys, c19ConsCalls, c19Signs = nil, 0, nil, nil, 0, 0
 	c19Tx, c19ReadInTx, c19WriteInTx = nil, false, false
 	c19Conc, c19DBFails, c19Row = false, false, nil
+	c19WriteFails, c19WriteFailed = false, false
 	c19SigOK = []bool{true, true, true, true, true, true, true, true}
 	c19ConsOK = true
 	mk := func(size uint64, fill byte) []byte {
